@@ -235,6 +235,17 @@ def run(case):
         return violated("%s modified its second operand" % describe(), tags + ["operand-mutated"])
     if isinstance(other, np.ndarray) and not same_array(other, other_before):
         return violated("%s modified its array operand" % describe(), tags + ["operand-mutated"])
+    if kind in ("npscalar", "ra", "col") and not use_op and case["uf"] in ("add", "subtract", "multiply") and dt.kind in "iub" and tot:
+        # the same call with the result type asked for (dtype=): numpy computes IN that type -- 200 + 100 of 8-bit numbers is 300 in 64 bits
+        wide_ = np.dtype("float64") if (tot + n) % 2 else np.dtype("int64")
+        ob_ = other if kind != "ra" else other.ravel()
+        e2 = attempt(lambda: uf(flat, ob, dtype=wide_) if side == "R" else uf(ob, flat, dtype=wide_))
+        a2 = attempt(lambda: uf(ra, other, dtype=wide_) if side == "R" else uf(other, ra, dtype=wide_))
+        if e2.ok:
+            CTX.tick("c04:dtype-keyword")
+            if not a2.ok or not isinstance(a2.value, RA) or not same_dtype(a2.value.dtype, wide_) or not same_array(a2.value.ravel(), np.asarray(e2.value)):
+                return violated("%s with dtype=%s gives %s, numpy gives %s %s" % (describe(), wide_, repr(a2) if not a2.ok else "%s %s" % (a2.value.dtype, short(a2.value.ravel(), 120)), np.asarray(e2.value).dtype, short(e2.value, 120)),
+                                tags + ["kw:dtype"])
     return held(tags, nontrivial)
 
 
